@@ -20,8 +20,8 @@ def import_from(src):
         out = os.path.join(SEEDED, sid)
         os.makedirs(out, exist_ok=True)
         shutil.copy(os.path.join(d, "patch.diff"), os.path.join(out, "patch.diff"))
-        for t in glob.glob(os.path.join(d, "*_test.go")):
-            shutil.copy(t, os.path.join(out, os.path.basename(t) + ".txt"))  # .txt: not compiled as part of anything under /verif
+        for t in glob.glob(os.path.join(d, "**", "*_test.go"), recursive=True):
+            shutil.copy(t, os.path.join(out, os.path.relpath(t, d).replace("/", "__") + ".txt"))  # .txt: not compiled as part of anything under /verif
         if os.path.exists(os.path.join(d, "DEMO.txt")):
             shutil.copy(os.path.join(d, "DEMO.txt"), os.path.join(out, "DEMO.txt"))
         meta = {}
